@@ -80,6 +80,8 @@ def rich_lines(rng, tag, fmt, nlines=None):
                 segs.append(['t', T.word(rng, p_meta=0) + ' '])
             else:
                 segs.append(['t', T.word(rng, p_meta=0.6, exclude=excl) + ' '])
+        if fmt in ('dfxp', 'sami') and k == 0 and rng.random() < 0.12:
+            segs.insert(0, ['lead', rng.choice(['\n    ', '\n    \n    ', '\r\n\t', '\n  \t \n      '])])
         lines.append(segs)
     return lines
 
@@ -175,6 +177,8 @@ def _render(line, fmt, rng):
         k = seg[0]
         if k == 't':
             out += esc(seg[1], fmt, rng)
+        elif k == 'lead':
+            out += seg[1]
         elif k == 'wrap':
             out += '\n' + ' ' * rng.choice([2, 6, 10])
         elif k == 'ts':
